@@ -44,7 +44,7 @@ PROPS = {
     "C13": ("a2lprobe", "exploration", 600, 3600),
     "C14": ("a2lprobe", "exploration", 600, 3600),
     "C15": ("a2lprobe", "exploration", 600, 3600),
-    "C16": ("a2lprobe", "exploration", 600, 3600),
+    "C16": ("a2lprobe", "fault_enumeration", 600, 3600),
     "C17": ("a2lprobe", "exploration", 600, 3600),
     "C18": ("a2lprobe", "exploration", 600, 3600),
     "C19": ("a2lprobe", "exploration", 600, 3600),
